@@ -251,9 +251,14 @@ class Machine:
             got = list(history.get_txnums(hashX, None))
             want = model.history.get(hashX, [])
             if got != want:
-                raise Violation(f'{where}: history of script {script.hex()[:14]} is {got[:12]} '
-                                f'(len {len(got)}), before compaction / model {want[:12]} '
-                                f'(len {len(want)})', 'history_changed')
+                v = Violation(f'{where}: history of script {script.hex()[:14]} is {got[:12]} '
+                              f'(len {len(got)}), before compaction / model {want[:12]} '
+                              f'(len {len(want)})', 'history_changed')
+                # entries lost and nothing else (what the open finding does: compacted rows
+                # deleted as "excess"): got is want with some entries missing, order kept
+                have = set(got)
+                v.lost_only = len(got) < len(want) and got == [x for x in want if x in have]
+                raise v
 
     async def open_compacting(self):
         if self.cdb is None:
@@ -510,7 +515,8 @@ def run_case(scratch, case):
         run_sim(m.run, vt_deadline=30000)
     except Violation as v:
         sig = v.sig
-        if m.rows_exceed_flushes and sig in ('history_changed', 'index_differs'):
+        if m.rows_exceed_flushes and (sig == 'index_differs' or
+                                      (sig == 'history_changed' and getattr(v, 'lost_only', False))):
             sig += ':killed_before_utxo_flush_count_with_more_rows_than_flushes'
         return v.message, sig, m.info
     except NodeDied as e:
